@@ -82,9 +82,10 @@ class RotationCorrection(darsia.BaseCorrection):
                     scaling = -1 if reverted else 1
                     rotation = Rotation.from_rotvec(scaling * degree * vector)
                     self.rotation = np.matmul(self.rotation, rotation.as_matrix())
-                    rotation_inv = Rotation.from_rotvec(-degree * vector)
+                    # NOTE: Reverse order for the inverse.
+                    rotation_inv = Rotation.from_rotvec(-scaling * degree * vector)
                     self.rotation_inv = np.matmul(
-                        self.rotation_inv, rotation_inv.as_matrix()
+                        rotation_inv.as_matrix(), self.rotation_inv
                     )
 
     def correct_array(self, img: np.ndarray) -> np.ndarray:
@@ -121,7 +122,7 @@ class RotationCorrection(darsia.BaseCorrection):
         src_voxels = np.clip(
             src_voxels.astype(int),
             0,
-            np.outer(np.array(shape) - 1, np.ones(num_voxels)),
+            np.outer(np.array(shape[: self.dim]) - 1, np.ones(num_voxels)),
         ).astype(int)
         rotated_img = np.zeros(shape)
         rotated_img[tuple(target_voxels[j] for j in range(self.dim))] = img[
